@@ -3,6 +3,7 @@ package ir
 import (
 	"fmt"
 	"io"
+	"sort"
 	"strings"
 	"sync"
 
@@ -179,6 +180,10 @@ func (m *Module) WriteTo(w io.Writer) (n int64, err error) {
 			attrGroupDefs = append(attrGroupDefs, a)
 		}
 	}
+	// Output in ascending order of ID.
+	sort.SliceStable(attrGroupDefs, func(i, j int) bool {
+		return attrGroupDefs[i].ID < attrGroupDefs[j].ID
+	})
 	if len(attrGroupDefs) > 0 && fw.size > 0 {
 		fw.Fprint("\n")
 	}
@@ -199,11 +204,16 @@ func (m *Module) WriteTo(w io.Writer) (n int64, err error) {
 		md := m.NamedMetadataDefs[mdName]
 		fw.Fprintf("%s = %s\n", md.Ident(), md.LLString())
 	}
-	// Metadata definitions.
-	if len(m.MetadataDefs) > 0 && fw.size > 0 {
+	// Metadata definitions; output in ascending order of ID.
+	mdDefs := make([]metadata.Definition, len(m.MetadataDefs))
+	copy(mdDefs, m.MetadataDefs)
+	sort.SliceStable(mdDefs, func(i, j int) bool {
+		return mdDefs[i].ID() < mdDefs[j].ID()
+	})
+	if len(mdDefs) > 0 && fw.size > 0 {
 		fw.Fprint("\n")
 	}
-	for _, md := range m.MetadataDefs {
+	for _, md := range mdDefs {
 		// ID=MetadataID '=' Distinctopt MDNode=MDTuple
 		//
 		// ID=MetadataID '=' Distinctopt MDNode=SpecializedMDNode
